@@ -426,7 +426,10 @@ def check_seq(seq, stats):
                 st_ = at_ if at_ is not None else (src[2] if src else None)
                 if op[1] == "w" and op[2] == "y":
                     st_ = id2arch.get(did_, st_)
-                hvars[op[4]] = ("d", dw, st_, st_ is not None and st_ < len(ids) and ids[st_] != did_)
+                if (src is None or src[0] == "u") and not (op[1] == "w" and op[2] == "y") and at_ is None:
+                    hvars[op[4]] = ("u", None, None, False)      # typing of the source unknown to the oracle
+                else:
+                    hvars[op[4]] = ("d", dw, st_, st_ is not None and st_ < len(ids) and ids[st_] != did_)
                 da = id2arch.get(int(dw.split(".")[0]) & 0xff)
                 # C09: remember for which entity (by its component tokens) and at which removal count of
                 # its archetype the handle was issued -- only when the source is an entity variable whose
@@ -446,7 +449,9 @@ def check_seq(seq, stats):
                     hvars[op[1]] = ("e", words, b, mismatch)
                 elif op[2] == "dir":
                     src = hvars.get(op[4])
-                    if src:
+                    if src is None or src[0] == "u":
+                        hvars[op[1]] = ("u", None, None, False)
+                    elif src:
                         b = int(op[3])
                         mismatch = (int(src[1].split(".")[0]) & 0xff) != ids[b]
                         hvars[op[1]] = ("d", src[1], b, mismatch)
@@ -674,6 +679,16 @@ def check_seq(seq, stats):
                     exp = [str(i) for i in range(len(items), -1, -1)]
                     if hn_ != exp:
                         hits.append(hit("C17", seq, no, raw, f"size_hint sequence {hn_} not exact for {len(items)} items", "size-hint"))
+        if kind in ("iter", "iterb", "iterd", "find", "findb") and "saved=1" in obs:
+            # `save=dN`: the harness keeps the LAST direct handle a closure call received, typed by its id
+            sv = next((t_[5:] for t_ in op if t_.startswith("save=")), None)
+            dargs = [a_ for c_ in call_list(obs) for a_ in c_ if a_.startswith("d") and "." in a_]
+            if sv:
+                if dargs:
+                    dwords = dargs[-1][1:]
+                    hvars[sv] = ("d", dwords, id2arch.get(int(dwords.split(".")[0]) & 0xff), False)
+                else:
+                    hvars[sv] = ("u", None, None, False)
         prev_summary = summary if summary else prev_summary
         if kind == "switch" and cur < len(worlds) and worlds[cur] is not None:
             prev_summary = summary
